@@ -89,6 +89,7 @@ def bootStr : Option Boot → String
 
 def addResStr : AddRes → String
   | .ok => "ok" | .exists_ => "exists" | .noParent => "no-parent" | .preMismatch => "pre-mismatch"
+  | .writeErr => "write-error"
 
 /-- Following `pre` from the group that `gcurrent` names never ends. The real start-up then
     never returns (`refreshCache` has no cycle guard); only reachable after a crash in the middle
